@@ -140,6 +140,7 @@ type LSection struct {
 
 type layoutCase struct {
 	Sections []LSection `json:"sections"`
+	CRLF     bool       `json:"crlf,omitempty"` // the source files are written with \r\n line ends
 	out      string
 	have     bool
 }
@@ -482,7 +483,11 @@ func (c *layoutCase) Run() string {
 		return c.out
 	}
 	src, _, _ := c.render()
-	pkgs := []map[string]string{{"p.go": src, "q.go": siblingFile(src)}}
+	sib := siblingFile(src)
+	if c.CRLF {
+		src, sib = strings.ReplaceAll(src, "\n", "\r\n"), strings.ReplaceAll(sib, "\n", "\r\n")
+	}
+	pkgs := []map[string]string{{"p.go": src, "q.go": sib}}
 	b := loadBatch(pkgs)
 	defer b.Close()
 	c.out, c.have = c.eval(b.Pkg(0)), true
@@ -800,6 +805,7 @@ func genLayout(r *Rng) *layoutCase {
 		}
 		c.Sections = append(c.Sections, sec)
 	}
+	c.CRLF = r.Chance(15)
 	return c
 }
 
@@ -811,7 +817,11 @@ func layoutBatch(cases []Case) []string {
 		var pkgs []map[string]string
 		for _, c := range cases[start:end] {
 			src, _, _ := c.(*layoutCase).render()
-			pkgs = append(pkgs, map[string]string{"p.go": src, "q.go": siblingFile(src)})
+			sib := siblingFile(src)
+			if c.(*layoutCase).CRLF {
+				src, sib = strings.ReplaceAll(src, "\n", "\r\n"), strings.ReplaceAll(sib, "\n", "\r\n")
+			}
+			pkgs = append(pkgs, map[string]string{"p.go": src, "q.go": sib})
 		}
 		b := loadBatch(pkgs)
 		b2 := loadBatchFset(pkgs, true) // the same packages, loaded by a caller that brings its own file set
